@@ -62,3 +62,29 @@ Theorem C10_convert_unsafe_rel : forall c src o', ConvertModel (with_unsafe c tr
   exists o, ConvertModel (with_unsafe c false) src = Ok o /\ UnsafeRel o o'.
 Proof. exact ConvertModel_unsafe_rel. Qed.
 Print Assumptions C10_convert_unsafe_rel.
+
+(* "for every input and every extension set": the same three relations for ANY composition of a
+   parser with the renderer model (conv parse cfg src = parse src >>= RenderHTML cfg src; the
+   parser does not see the renderer options), and the Convert models of the extension parsers
+   are such compositions by definition: extension.GFM in all sixteen subsets (ConvertModelX),
+   extension.Footnote (ConvertModelFn), Typographer / DefinitionList (ConvertModelTD), the
+   heading options (ConvertModelH) - each compared with goldmark byte for byte on every run *)
+Require Import GM.model.InlineParseX GM.model.GfmI GM.model.FootnoteI GM.model.TypoDefParse GM.model.TypoDefI GM.model.HeadingOpts GM.model.HeadingOptsI
+               GM.proofs.ConvertRelAll.
+Theorem C10_any_parser_xhtml_rel : forall parse c src o, pinned c -> conv parse (with_xhtml c false) src = Ok o ->
+  exists o', conv parse (with_xhtml c true) src = Ok o' /\ XhtmlRel o o'.
+Proof. exact conv_xhtml_rel. Qed.
+Print Assumptions C10_any_parser_xhtml_rel.
+Theorem C10_any_parser_hardwraps_rel : forall parse c src o, conv parse (with_hardwraps c false) src = Ok o ->
+  exists o', conv parse (with_hardwraps c true) src = Ok o' /\ HardWrapRel (xhtml c) o o'.
+Proof. exact conv_hardwraps_rel. Qed.
+Print Assumptions C10_any_parser_hardwraps_rel.
+Theorem C10_any_parser_unsafe_rel : forall parse c src o', conv parse (with_unsafe c true) src = Ok o' ->
+  exists o, conv parse (with_unsafe c false) src = Ok o /\ UnsafeRel o o'.
+Proof. exact conv_unsafe_rel. Qed.
+Print Assumptions C10_any_parser_unsafe_rel.
+Theorem C10_extension_models_are_compositions :
+  (forall xc, ConvertModelX xc = conv (ParseTreeX xc)) /\ ConvertModelFn = conv ParseTreeFn /\
+  (forall tc, ConvertModelTD tc = conv (ParseTreeTD tc)) /\ (forall hc, ConvertModelH hc = conv (ParseTreeH hc)).
+Proof. exact (conj ConvertModelX_conv (conj ConvertModelFn_conv (conj ConvertModelTD_conv ConvertModelH_conv))). Qed.
+Print Assumptions C10_extension_models_are_compositions.
